@@ -34,7 +34,7 @@ NameLen(n) == CASE n = "LONG"  -> 65536
                 [] n = "XLONG" -> 65537
                 [] n = ""      -> 0
                 [] n = "uni"   -> 5          \* "héé" : 1 + 2 + 2 bytes
-                [] OTHER       -> 1
+                [] OTHER       -> Len(n)      \* plain ASCII labels are their own name
 
 VARIABLES wst,      \* "open" | "final" | "broken" (after a short source the stream is desynchronised)
           opened,   \* ids in ArchiveWriterState::OpenedFiles.ids
